@@ -1697,7 +1697,9 @@ def classify_stem(e: ast.expr):
         c = e.value
         if c.func.attr == "rsplit" and len(c.args) == 2 and norm(c.args[0]) == "'.'" and norm(c.args[1]) == "1":
             return "RSPLIT1", norm(c.func.value)
-        if c.func.attr in ("rsplit", "split") and len(c.args) == 1 and norm(c.args[0]) == "'.'":
+        if c.func.attr == "rpartition" and len(c.args) == 1 and norm(c.args[0]) == "'.'":
+            return "RPARTITION", norm(c.func.value)        # '' when there is no dot, like JOINSPLIT
+        if c.func.attr in ("rsplit", "split", "partition") and len(c.args) == 1 and norm(c.args[0]) == "'.'":
             return "FIRSTDOT", norm(c.func.value)
         if call_name(c) == "os.path.splitext" and c.args:
             return "SPLITEXT", norm(c.args[0])
@@ -1717,7 +1719,7 @@ def classify_stem(e: ast.expr):
     return None
 
 
-STEM_EQUIV = {"JOINSPLIT": "lastdot", "RSPLIT1": "lastdot", "SPLITEXT": "lastdot", "RESUB-ci": "suffix-ci", "SLICE6": "suffix-ci",
+STEM_EQUIV = {"RPARTITION": "lastdot", "JOINSPLIT": "lastdot", "RSPLIT1": "lastdot", "SPLITEXT": "lastdot", "RESUB-ci": "suffix-ci", "SLICE6": "suffix-ci",
               "RESUB-cs": "suffix-cs", "REMOVESUFFIX-cs": "suffix-cs", "FIRSTDOT": "firstdot"}
 
 
@@ -1727,8 +1729,9 @@ def rule_stem_agreement(rep: Report, repo: Repo, rule: str) -> None:
                    "(both 'everything before the last dot', or both a case-insensitive '.cmake' suffix removal)")
     dm = DocumentModel(repo)
     toc = []
-    for n in walk_no_nested(dm.walk):
-        if isinstance(n, ast.For) and n is not dm.walk and dm.dirs_var not in norm(n.iter):
+    toc_file_loops, _toc_dir_loops, _page_loop = emission_loops(dm)
+    for n in toc_file_loops:
+        if True:
             for st in n.body:
                 for c in calls_in(st):
                     if isinstance(c.func, ast.Attribute) and c.func.attr == "text" and c.args:
